@@ -51,26 +51,27 @@ CFG = P(
     harness=["harness/C12.cc", "harness/C12_types.cc", "harness/C12_big.cc"], harness_deps=["harness/bfs.hh", "harness/C12_core.hh"],
     srcs=[],
     harness_cxxflags=["-fno-access-control"] + (["-DC12_HAVE_INSERT_CONSTREF"] if _INSERT_CONSTREF else []) + (["-DC12_HAVE_AT_CONST"] if _AT_CONST else []),
-    deadline={"quick": 600, "thorough": 3600},
+    deadline={"quick": 1800, "thorough": 5400},
     # ~10^9 small allocations in the un-merged runs: short allocation stacks and a small quarantine keep
     # ASan's allocator out of the profile (every misuse here is immediate, so detection is unaffected)
     asan_options="malloc_context_size=3:quarantine_size_mb=16:thread_local_quarantine_size_kb=64",
     rule="a transition (BFS) or sequence (un-merged run) is non-trivial when the container operated on holds at least two entries at that point, i.e. when recency order decides the outcome",
     bounds={
-        "quick": "fixpoint of the merged search for LRUSet (two instances with swap, 3 keys, sizes {0,1,2}: 226^2 list pairs) and LRUMap (M1: one instance, sizes {0,1,2}, values {10,11}; M2: two instances with swap, sizes {1,2}); un-merged: all LRUSet sequences of length <= 4 over the full one-instance alphabet, all LRUMap sequences of length <= 3 (full alphabet) and <= 4 (30..34-letter alphabet)",
-        "thorough": "the same fixpoints; un-merged: all LRUSet sequences of length <= 4 (full one-instance alphabet), <= 5 (33 letters) and <= 7 (12 letters incl. swap), all LRUMap sequences of length <= 3 (full), <= 5 (30..34 letters) and <= 7 (13 letters incl. swap)",
+        "quick": "fixpoints of the merged search: LRUSet<int> (two instances with swap, 3 keys, sizes {0,1,2}: 226^2 list pairs), LRUMap<int,int> (M1: one instance, sizes {0,1,2}, values {10,11}; M2: two instances with swap, sizes {1,2}); typed scopes, each two heap instances with swap (X of a derived class, destroyed through the base pointer), 79^2 list pairs, with aliased key arguments: LRUSet<std::string>, LRUSet<one-bucket key>, LRUMap<std::string,std::string>, LRUMap<one-bucket key,unique_ptr<int>> (plus one-instance two-value scopes of the two maps); boundary sizes: LRUSet<int> and LRUMap<int,int>, one instance, sizes {0,1,2^31-1,2^31,2^32-1,2^32,2^63-1,2^63,SIZE_MAX-1,SIZE_MAX} (9812 states each); un-merged: all LRUSet sequences of length <= 4 (full one-instance alphabet) and <= 6 (12 letters incl. swap), all LRUMap sequences of length <= 3 (full), <= 4 (30..34 letters) and <= 6 (13 letters incl. swap), typed one-instance alphabets to length 3, boundary-size alphabets ({0,2^63,SIZE_MAX}, {1,2^32,2^63-1,SIZE_MAX-1}) to length 3, and the medium / reduced alphabets to length 3 / 4 in four context plans (catch handler, destructor during unwinding, alternating main thread / fresh thread in both phases)",
+        "thorough": "the same fixpoints (LRUSet<std::string> with sizes {0,1,2}: 226^2 pairs); un-merged: all LRUSet sequences of length <= 4 (full one-instance alphabet), <= 5 (33 letters) and <= 7 (12 letters incl. swap), all LRUMap sequences of length <= 3 (full), <= 5 (30..34 letters) and <= 7 (13 letters incl. swap), typed set alphabets to length 4 (maps 3), boundary-size alphabets to length 3..4, context plans to length 4 (medium) / 5 (reduced with swap)",
     },
-    explanation="E-BFS: states are operation histories replayed on fresh LRUSet/LRUMap objects, identified by the lists read through the real head/next links plus total_size; the finite abstract space is searched to a fixpoint; the reference is a recency list whose refresh rules are the documented ones; un-merged sequence runs validate the merging",
+    explanation="E-BFS: states are operation histories replayed on fresh LRUSet/LRUMap objects, identified by the lists read through the real head/next links plus total_size; the finite abstract space of every scope (int keys; std::string keys and values; keys that all hash into one bucket; move-only values; 64-bit boundary sizes) is searched to a fixpoint; the reference is a recency list whose refresh rules are the documented ones; un-merged sequence runs validate the merging and repeat the histories in other execution contexts",
     assumptions=[
-        "keys are ints {0,1,2}, sizes {0,1,2}, map values {10,11}; the statement's random 400-operation histories over up to 8 keys are replaced by the fixpoint of the 3-key space (every reachable pair of lists)",
-        "which operations refresh recency is taken from the headers: set insert/emplace on an existing key and touch; map at (const and non-const), insert on an existing key, change_size(touch=true), touch; map emplace on an existing key changes nothing; LRUSet::change_size never refreshes",
-        "exception class demanded: std::out_of_range for evict_object/peek on an empty container and for at/item_size on a missing key",
+        "3 keys per scope, at most two instances; sizes {0,1,2} / {1,2} / {0,2} or the ten 64-bit boundary sizes, map values {10,11}; the statement's random 400-operation histories over up to 8 keys are replaced by the fixpoint of the 3-key space (every reachable pair of lists)",
+        "which operations refresh recency is taken from the headers: set insert/emplace on an existing key and touch; map at (const and non-const), insert on an existing key, change_size(touch=true), touch; map emplace on an existing key changes nothing; LRUSet::change_size never refreshes; default sizes: LRUSet 0, LRUMap 1",
+        "exception class demanded: std::out_of_range for evict_object/peek on an empty container and for at/item_size on a missing key, in every execution context",
         "operations are applied to instance X; instance Y only takes part through swap (both call directions and self-swap)",
-        "don't care: iterator invalidation, non-int key/value types (move-only or throwing types), hash-bucket layout",
-        "LRUMap::insert(const&, const&, size) and LRUMap::at() const are ill-formed on the pinned tree (cannot be instantiated): each is executed only when the tree under test makes it compile",
+        "don't care: size() / total_size once the mathematical sum of the entries' sizes has exceeded SIZE_MAX (until clear()): order, each entry's size, count, results and links are still compared; the size an entry ends up with after touch(k, n) with a negative n other than the default -1 (refresh, result and structure are compared); the state of key/value arguments after a call (moved-from or not)",
+        "don't care: iterator invalidation, throwing key/value types, the implicitly generated copy constructor / copy assignment of the containers (not an operation of the statement; they copy the raw head/tail pointers)",
+        "LRUMap::insert(const&, const&, size) and LRUMap::at() const were ill-formed on the originally pinned tree: each is executed only when the tree under test makes it compile (it does on the current tree)",
     ],
     engine="E-BFS",
     technique="explicit-state breadth-first search to fixpoint over real LRUSet/LRUMap objects (histories replayed on fresh objects, white-box canonical form and link invariant) against a reference recency list, every state drained and destroyed under ASan/LSan; un-merged exhaustive operation sequences validate the state merging",
-    level_text="Every pair of recency lists reachable over 3 keys x 3 sizes (x 2 values) by insert, emplace, erase, touch, lookup, change_size, evict, peek, clear and swap is built on the real containers; in each, every operation's result, the list order read through the real links, size/count/peek/empty, the link invariant and a final drain are compared with a reference recency list. The space is finite and searched to a fixpoint, and all operation sequences up to length 4-7 are additionally run un-merged.",
-    level_note="Trusted: the reference list and its refresh rules (copied from the headers); merging relies on the canonical form, which is validated by the un-merged runs. Small key/size/value sets; int keys and values only.",
+    level_text="Every pair of recency lists reachable over 3 keys x 3 sizes (x 2 values) by insert, emplace, erase, touch, lookup, change_size, evict, peek, clear and swap is built on the real containers - with int keys, std::string keys and values, keys that all collide in one hash bucket, move-only values, heap objects of a derived class, key arguments that alias the stored key, and sizes at every 32/63/64-bit boundary; in each, every operation's result, the list order read through the real links, size/count/peek/empty, the link invariant and a final drain are compared with a reference recency list. Each space is finite and searched to a fixpoint; all operation sequences up to length 3-7 are additionally run un-merged, also from catch handlers, unwinding destructors and alternating threads.",
+    level_note="Trusted: the reference list and its refresh rules (copied from the headers); merging relies on the canonical form, which is validated by the un-merged runs (state hidden from the canonical form is only seen to the un-merged depth). Small key/size/value sets; size() is not compared once the sum of sizes has overflowed.",
 )
